@@ -1420,7 +1420,10 @@ theorem request_ok (mode : Mode) (c : Nat) (nameB : Bytes) (args : List Bytes) (
   | true =>
     cases hqd : ((s0.conn c).tx.isSome && !SigTable.notQueued.contains sig.name) with
     | true =>
-      rw [PubSubHist.dispatchBody_queued mode c (s0.conn c) sig args s1 har hqd]
+      have hnm : SigTable.notInMulti.contains sig.name = false := by
+        have key : ∀ n ∈ famNames ++ txNames, SigTable.notInMulti.contains n = false := by decide
+        exact key _ (List.mem_append.2 hn)
+      rw [PubSubHist.dispatchBody_queued mode c (s0.conn c) sig args s1 har hqd hnm]
       simp only [Bool.and_eq_true, Bool.not_eq_true'] at hqd
       have hfam : sig.name ∈ famNames := by
         rcases hn with hn | hn
